@@ -447,18 +447,37 @@ class World:
         self.saver_cls = None
 
     # -- crash points ---------------------------------------------------------
-    def armed(self):
+    def armed(self, marks_key='marks'):
         win = self.cfg.get('window')
         if not win:
             return True
         r, rm = self.rep_now, self.cfg['rep_max']
-        marks = [0, rm] + list(range(500, rm + 1, 500))
+        marks = self.cfg.get(marks_key)
+        if marks is None:
+            marks = [0, rm] + list(range(500, rm + 1, 500))
         return min(abs(r - m) for m in marks) <= win
+
+    def skip_allowed(self, run, v, k):
+        """may this _run_simulation call raise SkipThisOne?  (never the first
+        call of a variation: that escape is C05's subject; <= 1 per variation
+        and run; for large rep_max only in run A near the marks)"""
+        cfg = self.cfg
+        if not cfg.get('skips') or k < 1 or self.skipped[run].get(v):
+            return False
+        if run not in cfg.get('skip_runs', 'AB'):
+            return False
+        if cfg.get('skip_vars') is not None and v not in cfg['skip_vars']:
+            return False
+        if cfg.get('window'):
+            return run == 'A' and self.armed('skip_marks')
+        return True
 
     def event(self, kind, what=''):
         if self.run != 'A' or self.crashed is not None:
             return
         if not self.armed():
+            return
+        if self.cfg.get('kinds') and kind not in self.cfg['kinds']:
             return
         i = self.n_events
         self.n_events += 1
@@ -504,7 +523,7 @@ class World:
             self.rep_now = 0
         self.event('run-pre', 'v%d' % v)
         self.calls[run][v] = k + 1
-        if self.cfg.get('skips') and k >= 1 and not self.skipped[run].get(v):
+        if self.skip_allowed(run, v, k):
             if self.drv.skip(run, v, k):
                 self.skipped[run][v] = 1
                 raise rn.SkipThisOne('injected by the C07 harness')
@@ -565,6 +584,45 @@ def patched(world):
                 setattr(mod, name, old)
 
 
+def _pval(spec):
+    """parameter value from its JSON-able description in a cfg"""
+    if isinstance(spec, dict) and 't' in spec:
+        import numpy as np
+        t = spec['t']
+        if t == 'arr':
+            return np.array(spec['v'], dtype=spec.get('dtype'))
+        if t == 'np':
+            return np.dtype(spec['dtype']).type(spec['v'])
+        if t == 'float':
+            return float(spec['v'])
+        if t == 'int':
+            return int(spec['v'])
+        raise ValueError(spec)
+    return spec
+
+
+def _exact(x):
+    """the mathematical value of a parameter (exact rationals, shape), blind
+    to int/float/dtype: two parameters are DIFFERENT iff these differ"""
+    import numpy as np
+    if isinstance(x, np.ndarray):
+        return ('arr', tuple(x.shape),
+                tuple(_exact(e) for e in x.ravel().tolist()))
+    if isinstance(x, (list, tuple)):
+        return ('arr', (len(x), ), tuple(_exact(e) for e in x))
+    if isinstance(x, np.generic):
+        x = x.item()
+    if isinstance(x, (bool, int)):
+        return Fraction(int(x))
+    if isinstance(x, float):
+        if x != x:
+            return 'nan'
+        if x in (float('inf'), float('-inf')):
+            return repr(x)
+        return Fraction(x)
+    return ('obj', repr(x))
+
+
 def make_runner(world, which):
     """a fresh SimulationRunner subclass instance for run A or B"""
     rn = repo_module(RN)
@@ -583,9 +641,9 @@ def make_runner(world, which):
         'extra_B', cfg.get('extra', 7))
     r.rep_max = cfg['rep_max'] if which == 'A' else cfg.get(
         'rep_max_B', cfg['rep_max'])
-    r.params.add('SNR', list(grid))
+    r.params.add('SNR', [_pval(g) for g in grid])
     r.params.set_unpack_parameter('SNR')
-    r.params.add('extra', extra)
+    r.params.add('extra', _pval(extra))
     r.update_progress_function_style = None
     r.set_results_filename(cfg['fname'])
     r.delete_partial_results_bool = bool(cfg.get('delete'))
@@ -661,8 +719,8 @@ def _combo(cfg, which, v):
     grid = cfg['grid'] if which == 'A' else cfg.get('grid_B', cfg['grid'])
     extra = cfg.get('extra', 7) if which == 'A' else cfg.get(
         'extra_B', cfg.get('extra', 7))
-    return dict(SNR=grid[v] if v < len(grid) else None, extra=extra,
-                n=len(grid))
+    return dict(SNR=_exact(_pval(grid[v])) if v < len(grid) else None,
+                extra=_exact(_pval(extra)), n=len(grid))
 
 
 def judge_digits(tag, got, want, rep_max, tags):
@@ -1059,7 +1117,11 @@ class Resume(_Base):
               '.pickle and .json; delete_partial_results on/off; <= 1 (quick) '
               '/ 2 (thorough) time-triggered saves in run A, <= 1 in run B; '
               '<= 1 SkipThisOne per variation and run (never on the first '
-              'call of a variation); disk blocks of 256 bytes (16, 64, 1024 '
+              'call of a variation; also BEFORE a time-triggered save and, '
+              'for rep_max 501 (quick) / 501, 700, 1001 (thorough), before '
+              'the periodic save at repetition 500 with the crash between '
+              'that save and the final one); parameters also numpy arrays / '
+              'tiny numbers; disk blocks of 256 bytes (16, 64, 1024 '
               'in some configurations); simulate() and simulate(index); two '
               'interruption models: kill (disk frozen at the crash instant) '
               'and Ctrl+C (soft=True: the exception unwinds through the code '
@@ -1092,6 +1154,23 @@ class Resume(_Base):
                             index=1))
             out.append(_cfg('pickle', 501, False, kA=0, kB=0, window=1,
                             chunk=1024, soft=True))
+            # SkipThisOne BEFORE a save (time-triggered / the periodic one at
+            # repetition 500), crash between that save and the final one
+            out.append(_cfg('pickle', 3, False, kA=1, kB=0, skips=True,
+                            skip_runs='A', skip_vars=[0]))
+            out.append(_cfg('pickle', 501, False, kA=0, kB=0, window=1,
+                            chunk=1024, skips=True, skip_runs='A',
+                            skip_vars=[0], skip_marks=[500],
+                            marks=[500, 501],
+                            kinds=['run-pre', 'close', 'replace']))
+            # parameters that are numpy arrays / tiny numbers, unchanged
+            out.append(_cfg('pickle', 2, False, kA=0, kB=0,
+                            extra=_arr([1e-9, 0.1, 1e6]),
+                            grid=[1e-9, 4e-9]))
+            if os.environ.get('C07_NAN_PARAM'):
+                # off by default: a NaN-valued parameter never equals itself
+                out.append(_cfg('pickle', 2, False, kA=0, kB=0,
+                                extra={'t': 'float', 'v': 'nan'}))
         else:
             for fmt in ('pickle', 'json'):
                 for r in (1, 2, 3, 4, 5):
@@ -1127,7 +1206,71 @@ class Resume(_Base):
             for r in (500, 501, 1001):
                 out.append(_cfg('pickle', r, False, kA=0, kB=0, window=2,
                                 chunk=1024, soft=True))
+            out.append(_cfg('pickle', 3, False, kA=1, kB=0, skips=True,
+                            skip_runs='A'))
+            out.append(_cfg('pickle', 4, False, kA=2, kB=0, skips=True,
+                            skip_runs='A', skip_vars=[0]))
+            for r, sm in ((501, [0, 500]), (700, [0, 500]), (1001, [500])):
+                out.append(_cfg('pickle', r, False, kA=0, kB=0, window=2,
+                                chunk=1024, skips=True, skip_runs='A',
+                                skip_vars=[0], skip_marks=sm,
+                                kinds=['run-pre', 'run-post', 'close',
+                                       'replace']))
+            out.append(_cfg('pickle', 3, False, kA=1, kB=0,
+                            extra=_arr([1e-9, 0.1, 1e6]), grid=[1e-9, 4e-9]))
+            if os.environ.get('C07_NAN_PARAM'):
+                out.append(_cfg('pickle', 2, False, kA=0, kB=0,
+                                extra={'t': 'float', 'v': 'nan'}))
         return out
+
+
+def _arr(v, dtype='float64'):
+    return {'t': 'arr', 'v': list(v), 'dtype': dtype}
+
+
+def _f(v):
+    return {'t': 'float', 'v': v}
+
+
+# (old value, new value) of the fixed parameter: every magnitude / type class.
+# Whether the two are DIFFERENT parameters is decided by _exact(), i.e. by the
+# mathematical values only; where they are the same value in another type
+# (int vs float, dtype only) the property is silent and the restart must
+# simply complete (the accepted behaviour of the unchanged tree).
+VALUE_CHANGES = [
+    (_f(1e-9), _f(4e-9)),                     # tiny absolute values
+    (_f(0.0), _f(1e-12)),                     # tiny against zero
+    (_f(-1e-9), _f(1e-9)),                    # sign only, tiny
+    (_f(1e-30), _f(2e-30)),
+    (_f(1.0), _f(1.000001)),                  # relative 1e-6
+    (_f(1.0), _f(1.000000001)),               # relative 1e-9
+    (_f(1e6), _f(1e6 + 1)),                   # large, +1
+    ({'t': 'int', 'v': 10**6}, {'t': 'int', 'v': 10**6 + 1}),
+    (_f(1e15), _f(1e15 + 1)),
+    ({'t': 'int', 'v': 1}, _f(1.0)),          # same value, int vs float
+    (_arr([1.0, 2.0, 3.0]), _arr([1.0, 2.0, 3.0000001])),
+    (_arr([1e-9, 2e-9]), _arr([1e-9, 3e-9])),
+    (_arr([1.0, 2.0]), _arr([1.0, 2.0], 'float32')),   # dtype only
+    (_arr([0.1, 0.2]), _arr([0.1, 0.2], 'float32')),   # dtype changes value
+    (_arr([1, 2], 'int64'), _arr([1.0, 2.0])),         # int vs float array
+    ({'t': 'np', 'dtype': 'float64', 'v': 0.1},
+     {'t': 'np', 'dtype': 'float32', 'v': 0.1}),
+    ('awgn', 'rayleigh'),                     # not numeric
+]
+if os.environ.get('C07_2D_PARAM'):
+    # off by default: with a 2-D ndarray parameter simulate() fails as soon as
+    # a results file name is set, interrupted or not (replace_dict_values ->
+    # get_mixed_range_representation -> np.hstack ValueError), see report
+    VALUE_CHANGES.append((_arr([[1.0, 2.0], [3.0, 4.0]]),
+                          _arr([[1.0, 2.0], [3.0, 4.00001]])))
+# (old grid, new grid) of the unpacked parameter
+GRID_CHANGES = [
+    ([0, 5], [0, 5.00001]),
+    ([1.0, 2.0], [1.000001, 2.0]),
+    ([1e-9, 2e-9], [1e-9, 5e-9]),
+    ([1e6, 2e6], [1e6, 2e6 + 1]),
+    ([1, 2], [1.0, 2.0]),                     # same values, int vs float
+]
 
 
 class ParamChange(_Base):
@@ -1136,7 +1279,14 @@ class ParamChange(_Base):
     name = 'param-change'
     bounds = ('grid of 2 variations; rep_max 1..2 (quick) / 1..3 (thorough); '
               'changed: a fixed parameter, the value of the first / second '
-              'variation; every crash point; <= 1 time-triggered save')
+              'variation; every crash point; <= 1 time-triggered save; the '
+              'change runs over magnitude and type classes: tiny absolute '
+              'values (1e-9 -> 4e-9, 0 -> 1e-12, 1e-30 -> 2e-30, sign), tiny '
+              'relative changes (1 -> 1+1e-6, 1+1e-9, 1e6 -> 1e6+1, 1e15 -> '
+              '1e15+1, int and float), 1-D arrays differing in one '
+              'element, dtype-only changes that keep / change the values, '
+              'int vs float of the same value, strings; same for the '
+              'unpacked parameter')
 
     def configs(self, tier):
         out = []
@@ -1146,6 +1296,15 @@ class ParamChange(_Base):
                             extra_B=8))
             out.append(_cfg('pickle', r, False, kA=1, kB=0, grid_B=[0, 6]))
             out.append(_cfg('pickle', r, False, kA=1, kB=0, grid_B=[1, 5]))
+        # magnitude / type classes of the change (cheap: rep_max 1, concrete
+        # clock; the comparison does not depend on the history)
+        for r, k in ((1, 0), ) if tier == 'quick' else ((1, 0), (2, 1)):
+            for old, new in VALUE_CHANGES:
+                out.append(_cfg('pickle', r, False, kA=k, kB=0, extra=old,
+                                extra_B=new))
+            for old, new in GRID_CHANGES:
+                out.append(_cfg('pickle', r, False, kA=k, kB=0, grid=old,
+                                grid_B=new))
         if tier != 'quick':
             out.append(_cfg('json', 2, True, kA=1, kB=0, extra=7, extra_B=8))
             out.append(_cfg('pickle', 2, False, kA=1, kB=0, index=1,
@@ -1173,7 +1332,10 @@ MANIFEST = dict(
     'completion, runned_reps == rep_max, every repetition counted exactly '
     'once in EVERY result (base-4 digit encoding, two result families), '
     'only durably saved + newly executed '
-    'repetitions, refusal (ValueError) of partial files of other parameters. '
+    'repetitions, refusal (ValueError) of partial files of other parameters '
+    '(changes of every magnitude / type class: 1e-9 -> 4e-9, relative 1e-6 '
+    'and 1e-9, 1e6 -> 1e6+1, one array element, dtype-only, int vs float; '
+    '"different" is decided on exact rational values). '
     'Bounds: 2 variations, rep_max 1..3 (quick) / 1..5 and 499..1001 '
     '(thorough), pickle and json final files.',
     note='each path is concrete once the solver chose the pattern (fault '
